@@ -176,6 +176,9 @@ func cmdCheck(args []string) int {
 			defer wg.Done()
 			defer func() { <-sem }()
 			q := o.query()
+			if o.Expect == "notunsat" {
+				q = o.vacuityQuery()
+			}
 			name := fmt.Sprintf("q%05d_%s", i, sanitize(o.Name))
 			if len(name) > 120 {
 				name = name[:120]
